@@ -320,9 +320,10 @@ def check_property(pid, tier, seed, do_freeze=False, verbose=True):
         if not in_base and not reproduced and base is not None:
             undecided.append((f["unit"], {"reason": "new-obligation-not-reproduced", "detail": f["key"]}))
             continue
-        os.makedirs(os.path.join(ROOT, "replays"), exist_ok=True)
+        rdir = os.path.join(ROOT, "replays") if os.path.realpath(REPO) == "/repo" else os.path.join(WORK, "replays-scratch")
+        os.makedirs(rdir, exist_ok=True)
         h = hashlib.sha1(f["key"].encode()).hexdigest()[:10]
-        path = os.path.join(ROOT, "replays", "%s-%s.json" % (pid, h))
+        path = os.path.join(rdir, "%s-%s.json" % (pid, h))
         with open(path, "w") as fp:
             json.dump({"property": pid, "obligation": f["key"], "unit": f["unit"], "kind": f["kind"],
                        "item": f.get("item"), "source": "%s:%s" % (f.get("src_file"), f.get("src_line")),
@@ -411,8 +412,10 @@ def write_evidence(pid, spec, tier, seed, results, total_obl, total_ok, knowns_h
         st = sum(r.get("states", 0) for r in results) or max(total_obl, 1)
         ev["coverage"].update({"states": st, "transitions": st, "traces_validated_against_impl":
                                sum(r.get("traces_validated", 0) for r in results)})
-    os.makedirs(os.path.join(ROOT, "evidence"), exist_ok=True)
-    with open(os.path.join(ROOT, "evidence", pid + ".json"), "w") as f:
+    # rehearsals against a scratch tree (VERIF_REPO) must not overwrite the evidence of /repo
+    evdir = os.path.join(ROOT, "evidence") if os.path.realpath(REPO) == "/repo" else os.path.join(WORK, "evidence-scratch")
+    os.makedirs(evdir, exist_ok=True)
+    with open(os.path.join(evdir, pid + ".json"), "w") as f:
         json.dump(ev, f, indent=1)
         f.write("\n")
 
